@@ -73,9 +73,21 @@ def run_case(c):
             sid = str(rnd.randrange(4))
             s, e = rnd.randrange(1440), rnd.randrange(1440)
             a, b = fmt(s // 60, s % 60), fmt(e // 60, e % 60)
-            d = SwitcherSchedule(sid, False, set(), a, b).duration
+            obj = SwitcherSchedule(sid, False, set(), a, b)
+            d = obj.duration
             if d != spec.duration_spec(a, b):
                 return {"ok": False, "evaluations": n + 1, "detail": f"schedule #{n + 1} (slot {sid}) {a}->{b} reports duration {d}",
                         "expected": spec.duration_spec(a, b)}
+            # a copy with one time edited (dataclasses.replace) reports the duration of ITS times
+            import dataclasses
+            e2 = rnd.randrange(1440)
+            b2 = fmt(e2 // 60, e2 % 60)
+            try:
+                d2 = dataclasses.replace(obj, end_time=b2).duration
+            except Exception as ex:   # noqa: BLE001
+                d2 = "raised " + type(ex).__name__
+            if d2 != spec.duration_spec(a, b2):
+                return {"ok": False, "evaluations": n + 1, "detail": f"copy of schedule {a}->{b} with end_time={b2} reports duration {d2}",
+                        "expected": spec.duration_spec(a, b2)}
         return {"ok": True, "evaluations": i["n"]}
     raise ValueError(k)
